@@ -712,6 +712,7 @@ def run(check: Check):
                 "hex_<routine>(...) executes the routine's compiled body")
     check.trust("T-IND: 'the callee's body computes what its C source computes' is C01's composition applied to a transformer whose leaves "
                 "include Parameters (borrowed pures: first read raw, C12)")
+    check.trust("T-QEMU / T-PLUGIN: spec/bundled_data.py (reviewed sources of the bundled routines) and spec/hexagon.MACRO_PROTOTYPES (helper prototypes)")
     check.assume("A-NAMES: add_op through its contract")
     check.trust("T-STR: an f-string renders a non-negative int as a non-empty string of decimal digits (CPython); used to state the nested-call "
                 "disjointness lemma over digit strings instead of str.from_int")
